@@ -58,7 +58,7 @@ pub fn run(ctx: &Ctx) -> (Report, Meta) {
             }
         }
         let term_idx = rng.below(nev);
-        let count = 1 + rng.below(3);
+        let mut count = 1 + rng.below(3);
         if rng.chance(0.4) {
             let k = 2 + rng.below(15);
             let mut te: Vec<f64> = (0..k).map(|_| scn.x0 + (scn.xend - scn.x0) * rng.f()).collect();
@@ -70,6 +70,28 @@ pub fn run(ctx: &Ctx) -> (Report, Meta) {
             }
             te.dedup();
             scn.t_eval = Some(te);
+        }
+        // a terminal event a few ulps after an interior step end and a requested time a few ulps after the event: the
+        // requested time belongs to the next step and lies beyond the stop
+        if scn.t_eval.is_some() && ng >= 4 && rng.chance(0.3) {
+            let xk = grid[1 + rng.below(ng - 2)];
+            let u = xk.abs().max(f64::MIN_POSITIVE) * f64::EPSILON;
+            let j = 1 + rng.below(3);
+            let c = xk + dirn * j as f64 * u;
+            let tq = xk + dirn * (j + 1 + rng.below(4)) as f64 * u;
+            let inside = (tq - scn.x0) * dirn > 0.0 && (tq - scn.xend) * dirn < 0.0 && (c - xk) * dirn > 0.0 && (tq - c) * dirn > 0.0;
+            if inside {
+                scn.events[term_idx] = EvSpec { kind: EvKind::Time { c }, dir: 0, terminal: None };
+                count = 1;
+                let te = scn.t_eval.as_mut().unwrap();
+                te.push(tq);
+                te.sort_by(|a, b| a.partial_cmp(b).unwrap());
+                if dirn < 0.0 {
+                    te.reverse();
+                }
+                te.dedup();
+                rep.count("pairs_with_event_and_request_within_ulps_of_a_step_end", 1);
+            }
         }
         scn.dense = rng.bool();
         let twin = scn.clone();
